@@ -12,6 +12,7 @@ import (
 	"os"
 
 	pf "github.com/weedbox/pokerface"
+	"github.com/weedbox/pokerface/combination"
 )
 
 type M = map[string]interface{}
@@ -186,6 +187,7 @@ func (t *traceWriter) emit(run int, reset bool, op string, seat int, x int64, er
 		line["deckSame"] = true
 		line["deck"] = []int{}
 	}
+	line["reeval"] = reeval(gs)
 	for k, v := range extra {
 		line[k] = v
 	}
@@ -196,4 +198,27 @@ func (t *traceWriter) emit(run int, reset bool, op string, seat int, x int64, er
 	t.w.Write(b)
 	t.w.WriteByte('\n')
 	t.lines++
+}
+
+// reeval: the evaluator re-run on the five cards each player's published hand names
+// (C10: "category, cards and strength describe one and the same hand")
+func reeval(gs *pf.GameState) []M {
+	out := make([]M, 0, len(gs.Players))
+	for _, p := range gs.Players {
+		m := M{"type": "", "power": 0}
+		if len(gs.Status.Board) >= 3 && p.Combination != nil && len(p.Combination.Cards) == 5 {
+			ok := true
+			for _, c := range p.Combination.Cards {
+				if card(c) == 0 {
+					ok = false
+				}
+			}
+			if ok {
+				ps := combination.CalculatePower(gs.Meta.CombinationPowers, p.Combination.Cards)
+				m = M{"type": combination.CombinationSymbol[ps.Combination], "power": clip(int64(ps.Score))}
+			}
+		}
+		out = append(out, m)
+	}
+	return out
 }
